@@ -128,6 +128,7 @@ def model (op : String) (args : List Bytes) : Option String :=
   | "stream.write" =>
     let (st, rs) := streamRun args
     some s!"{",".intercalate rs}|{st.entries.length}|{";".intercalate (st.entries.map fun e => hexEncode e.print)}|{hexEncode st.print}"
+  | "stream.big" => some "ok"   -- the harness compares a one-call write with 64 KiB pieces itself
   | "utf8.scan" => do let x ← args[0]?; pure (showScan (utf8 x))
   | "str.lines" => do let x ← args[0]?; pure (",".intercalate ((lines x).map hexEncode))
   | _ => none
